@@ -10,8 +10,10 @@ package watch
 // that was started after the last save that needed recompilation?
 
 import (
+	"bytes"
 	"context"
 	"fmt"
+	"go/format"
 	"io"
 	"log/slog"
 	"os"
@@ -26,6 +28,8 @@ import (
 	"github.com/a-h/templ/cmd/templ/generatecmd"
 	"github.com/a-h/templ/cmd/templ/generatecmd/run"
 	"github.com/a-h/templ/cmd/templ/generatecmd/watcher"
+	"github.com/a-h/templ/generator"
+	"github.com/a-h/templ/parser/v2"
 	"github.com/a-h/templ/zzverif/kernel"
 	"github.com/a-h/templ/zzverif/shim/simos"
 	"github.com/fsnotify/fsnotify"
@@ -64,6 +68,23 @@ func (h holdLog) Handle(ctx context.Context, r slog.Record) error {
 }
 func (h holdLog) WithAttrs([]slog.Attr) slog.Handler { return h }
 func (h holdLog) WithGroup(string) slog.Handler      { return h }
+
+// expectedGo generates the template at path the way the statement says: that file alone.
+func expectedGo(path string) string {
+	tf, err := parser.Parse(path)
+	if err != nil {
+		return "unparseable: " + err.Error()
+	}
+	var b bytes.Buffer
+	if _, err := generator.Generate(tf, &b, generator.WithFileName(filepath.Base(path))); err != nil {
+		return "ungeneratable: " + err.Error()
+	}
+	out, err := format.Source(b.Bytes())
+	if err != nil {
+		return "unformattable: " + err.Error()
+	}
+	return string(out)
+}
 
 func pipelineWorld(rc *kernel.RunCtx, k *kernel.Kernel) {
 	// Several goroutines of the command become runnable at the same fake instant (a watcher
@@ -114,10 +135,15 @@ func pipelineWorld(rc *kernel.RunCtx, k *kernel.Kernel) {
 	// stand-in's read of it exclude each other (a compiler sees either version; which one does
 	// not matter to the oracle, because a write that changes the code is followed by a restart).
 	var genMu sync.Mutex
+	var failGenWrite, genWriteFailed atomic.Bool
 	simos.SetHook(&simos.HookT{Now: time.Now,
 		Before: func(op, path string) simos.Fault {
 			if op == "WriteFile" && path == gen {
 				genMu.Lock()
+				if failGenWrite.CompareAndSwap(true, false) {
+					genWriteFailed.Store(true)
+					return simos.Fault{Kind: "enospc"} // disk full: this write of the generated file fails
+				}
 			}
 			return simos.Fault{}
 		},
@@ -206,10 +232,26 @@ func pipelineWorld(rc *kernel.RunCtx, k *kernel.Kernel) {
 		case 0:
 			v := t.Choose(len(fam.Variants), "save-variant")
 			note("save v%d (%s)", v, fam.Variants[v].Op)
+			if t.Chance(1, 8, "disk-full-at-next-write") {
+				failGenWrite.Store(true)
+			}
 			save(v)
 			notify()
 			saves++
 			k.Count("edits", 1)
+			if failGenWrite.Load() || genWriteFailed.Load() {
+				// let the save be handled; if the write failed, the user sees the error and saves again
+				time.Sleep(300 * time.Millisecond)
+				k.Quiesce()
+				releaseAll()
+				failGenWrite.Store(false)
+				if genWriteFailed.CompareAndSwap(true, false) {
+					k.Count("fault_write_of_generated_file_failed", 1)
+					note("the write of the generated file failed (disk full); the user saves v%d again", v)
+					save(v)
+					notify()
+				}
+			}
 		case 1:
 			ds := []time.Duration{time.Millisecond, 20 * time.Millisecond, 60 * time.Millisecond, 99 * time.Millisecond, 101 * time.Millisecond, 150 * time.Millisecond, 250 * time.Millisecond, time.Second}
 			d := ds[t.Choose(len(ds), "advance")]
@@ -229,6 +271,8 @@ func pipelineWorld(rc *kernel.RunCtx, k *kernel.Kernel) {
 		switch {
 		case err != nil:
 			rc.Fail("C16/pipeline/no-generated-code", "%v", err)
+		case compiledShape(string(b)) != compiledShape(expectedGo(src)):
+			rc.Fail("C16/pipeline/generated-code-stale", "%s: two seconds after the last save the generated Go code on disk is not the generation of the template as saved (v%d)\n trace: %s", fam.Name, cur, strings.Join(trace, "\n  "))
 		case compiledShape(string(b)) != builtShape:
 			now, was := strings.Split(compiledShape(string(b)), "\n"), strings.Split(builtShape, "\n")
 			diff := ""
